@@ -8,6 +8,7 @@
   acts on this view exactly as the plain model does, and that every query is a function of it.
 -/
 import HugrVerif.Proofs.StoreInv
+import HugrVerif.Proofs.StoreHier
 
 namespace HugrVerif.Props.C04
 open HugrVerif HugrVerif.Store HugrVerif.Py
@@ -160,6 +161,81 @@ theorem add_node_spec (s s' : Store Ω μ) (hs : SInv s) (op : Ω) (parent : Opt
       d'.numInps = d.numInps ∧ d'.numOuts = d.numOuts) := by
   obtain ⟨a, ⟨d, b1, b2, b3, b4, _, b6⟩, c, _, e, _, _⟩ := addNodeRaw_spec s s' hs.free op _ numOuts m i h
   exact ⟨a, ⟨d, b1, b2, b3, b4, b6⟩, linksList_congr s s' e, c⟩
+
+
+/-! ### the hierarchy: parent pointers and ordered children lists -/
+
+/-- `delete_node` is applied to leaves only (the statement's quantifier). -/
+def LeafOK (s : Store Ω μ) : Op Ω μ → Prop
+  | .deleteNode n => ∀ d, getNode s n = .ok d → d.children = []
+  | _ => True
+
+/-- States reachable from a fresh HUGR by well-formed calls that return normally. -/
+inductive Reach (rootOp : Ω) (m : μ) : Store Ω μ → Prop where
+  | init : Reach rootOp m (init rootOp m)
+  | step {s s' : Store Ω μ} (o : Op Ω μ) : Reach rootOp m s → o.WF → LeafOK s o → step s o = .ok s' →
+      Reach rootOp m s'
+
+theorem step_hier (s s' : Store Ω μ) (hs : SInv s) (hh : HierInv s) (o : Op Ω μ) (hleaf : LeafOK s o)
+    (h : step s o = .ok s') : HierInv s' := by
+  cases o with
+  | addNode op p k m =>
+    simp only [step] at h
+    cases ha : addNode s op p k m with
+    | error e => simp [ha, Except.map] at h
+    | ok r => simp [ha, Except.map] at h; subst h; exact hier_addNodeRaw s r.1 hh hs.free op _ k m r.2 ha
+  | addLink a b => exact hier_addLink s s' hh a b h
+  | addOrderLink a b => exact hier_addOrderLink s s' hh a b h
+  | deleteLink a b => exact hier_deleteLink s s' hh a b h
+  | deleteNode n =>
+    simp only [step] at h
+    cases h0 : getNode s n with
+    | error e => simp [deleteNode, h0] at h
+    | ok d0 => exact hier_deleteNode s s' hh hs.links n d0 h0 (hleaf d0 h0) h
+  | insertHugr b p =>
+    simp only [step] at h
+    cases ha : insertHugr s b p with
+    | error e => simp [ha, Except.map] at h
+    | ok r => simp [ha, Except.map] at h; subst h; exact hier_insertHugr s r.1 b hh hs.free p r.2 ha
+
+/-- **In every reachable state the children lists and parent pointers describe one forest**:
+    `c` is listed (once) among the children of `p` exactly when `c` is live with parent `p`;
+    together with the store invariant of `reachable_inv`. -/
+theorem reach_inv (rootOp : Ω) (m : μ) (s : Store Ω μ) (h : Reach rootOp m s) : SInv s ∧ HierInv s := by
+  induction h with
+  | init => exact ⟨sinv_init rootOp m, hier_init rootOp m⟩
+  | step o _ hw hl he ih => exact ⟨step_inv _ _ ih.1 o hw he, step_hier _ _ ih.1 ih.2 o hl he⟩
+
+theorem children_iff_parent (rootOp : Ω) (m : μ) (s : Store Ω μ) (h : Reach rootOp m s) (p c : Nat)
+    (dp : NodeData Ω μ) (hp : getNode s p = .ok dp) :
+    c ∈ childIdxs dp ↔ ∃ dc, getNode s c = .ok dc ∧ dc.parent = some p := by
+  obtain ⟨_, hh⟩ := reach_inv rootOp m s h
+  constructor
+  · exact hh.childParent p dp c hp
+  · rintro ⟨dc, hc, hpar⟩
+    obtain ⟨dp', hp', hm⟩ := hh.parentChild c dc p hc hpar
+    rw [hp] at hp'; injection hp' with hp'; subst hp'; exact hm
+
+theorem children_nodup (rootOp : Ω) (m : μ) (s : Store Ω μ) (h : Reach rootOp m s) (p : Nat)
+    (dp : NodeData Ω μ) (hp : getNode s p = .ok dp) : (childIdxs dp).Nodup :=
+  (reach_inv rootOp m s h).2.nodup p dp hp
+
+/-- `add_node` appends the new node at the END of its parent's ordered children and changes no
+    other children list; `delete_node` removes the node from its parent's list and from no other. -/
+theorem add_node_children (s s' : Store Ω μ) (hs : SInv s) (op : Ω) (parent : Option Nat)
+    (numOuts : Option Nat) (m : μ) (i : Nat) (h : addNode s op parent numOuts m = .ok (s', i)) :
+    ∀ j d, j ≠ i → getNode s j = .ok d → ∃ d', getNode s' j = .ok d' ∧ d'.parent = d.parent ∧
+      childIdxs d' = childIdxs d ++ (if parent.getD s.root = j then [i] else []) := by
+  intro j d hj hd
+  obtain ⟨d', a, b, c⟩ := (addNodeRaw_children s s' hs.free op _ numOuts m i h).1 j d hj hd
+  refine ⟨d', a, b, ?_⟩
+  rw [c]; simp
+
+theorem delete_node_children (s s' : Store Ω μ) (hs : SInv s) (n : Nat) (d0 : NodeData Ω μ)
+    (h0 : getNode s n = .ok d0) (h : deleteNode s n = .ok s') :
+    ∀ j d, j ≠ n → getNode s j = .ok d → ∃ d', getNode s' j = .ok d' ∧ d'.parent = d.parent ∧
+      childIdxs d' = (if d0.parent = some j then (childIdxs d).erase n else childIdxs d) :=
+  (deleteNode_children s s' hs.links n d0 h0 h).1
 
 /-- Non-vacuity: a concrete history with fan-out, an order link, a deletion in the middle of a
     multiply connected port, a node deletion and index reuse runs without raising. -/
